@@ -190,15 +190,18 @@ class _EvaluatorCompiler:
 
     def visit_and_clauselist_op(self, operator, evaluators, clause):
         def evaluate(obj):
+            has_null = False
             for sub_evaluate in evaluators:
                 value = sub_evaluate(obj)
                 if value is _EXPIRED_OBJECT:
                     return _EXPIRED_OBJECT
 
-                if not value:
-                    if value is None or value is _NO_OBJECT:
-                        return None
+                if value is None or value is _NO_OBJECT:
+                    has_null = True
+                elif not value:
                     return False
+            if has_null:
+                return None
             return True
 
         return evaluate
